@@ -106,14 +106,15 @@ def rdm1(ctx, s: Sib):
     from ..symex import Evaluator
     ev = Evaluator(p)
     fr = ev.eval_function(fi)
-    ok = len(fr.returns) == 2 and not fr.fell_off_end
-    calls = [t for _, t, _ in fr.returns if t.op == "call" and t.args[0].op == "attr"
+    rets = [(pa, t, ln) for pa, kind, t, ln in ev.leaves(fr) if kind == "return"]
+    ok = len(rets) == 2 and not fr.fell_off_end
+    calls = [t for _, t, _ in rets if t.op == "call" and t.args[0].op == "attr"
              and t.args[0].args[1] == "_calc_rdm1"]
-    stored = [t for _, t, _ in fr.returns if any(
+    stored = [t for _, t, _ in rets if any(
         x.op == "getitem" and x.args[1].op == "const" and x.args[1].args[0] == "rdm1"
         for x in [strip_wrappers(t)] + list(strip_wrappers(t).args if strip_wrappers(t).op == "call" else []))]
     ctx.ob("PATH-1", "wave_function.get_rdm1: returns the stored rdm1 or _calc_rdm1(wave_data)",
-           ok and len(calls) == 1, f"{len(fr.returns)} returns, {len(calls)} via _calc_rdm1", fi)
+           ok and len(calls) == 1, f"{len(rets)} returns, {len(calls)} via _calc_rdm1", fi)
 
 
 def params(ctx):
